@@ -54,6 +54,7 @@ type c30Vec struct {
 	MaxHex   int    `json:"maxhex"`
 	M        []int  `json:"m"`
 	Free     int    `json:"free"`
+	Frags    []int  `json:"frags"`
 }
 
 func c30Digits(d []int) string {
@@ -89,7 +90,7 @@ func c30ErrClass(err error) string {
 func TestVerifC30Vectors(t *testing.T) {
 	vfOpen(t)
 	evals, nontriv := 0, 0
-	ndec, nhex, nhexw, nskip := 0, 0, 0, 0
+	ndec, nhex, nhexw, nhexf, nskip := 0, 0, 0, 0, 0
 	otherWidth := "not evaluated"
 	vfEachLine(t, "", func(line []byte) {
 		var v c30Vec
@@ -127,6 +128,10 @@ func TestVerifC30Vectors(t *testing.T) {
 			if ndec%900 == 1 {
 				vfSample(vfRec{"kind": "dec", "in": string(c30Bytes(v.S)), "accept": v.OK, "value": c30Digits(v.Val)})
 			}
+		case "hexf":
+			nhexf++
+			nontriv++
+			c30HexFrag(v)
 		case "hexw":
 			nhexw++
 			nontriv++
@@ -145,7 +150,7 @@ func TestVerifC30Vectors(t *testing.T) {
 	if ndec == 0 || nhex == 0 {
 		vfInfra(fmt.Sprintf("no vectors for the native width %d (dec %d, hex %d)", strconv.IntSize, ndec, nhex))
 	}
-	vfStat(evals, nontriv, vfRec{"dec_vectors": ndec, "hex_vectors": nhex, "hex_write_alignment_vectors": nhexw, "vectors_for_other_width_not_run": nskip,
+	vfStat(evals, nontriv, vfRec{"dec_vectors": ndec, "hex_vectors": nhex, "hex_write_alignment_vectors": nhexw, "hex_fragmented_read_vectors": nhexf, "vectors_for_other_width_not_run": nskip,
 		"native_int_bits": strconv.IntSize, "other_width_constants": otherWidth})
 	vfDone()
 }
@@ -605,4 +610,142 @@ func TestVerifC30ChunkedAlignment(t *testing.T) {
 	}
 	vfStat(evals, evals, nil)
 	vfDone()
+}
+
+// ---- read side, fragmented delivery: the chunk-size line arrives in several reads ------------
+
+// c30FragReader returns the given pieces one per Read call (never more), as a transport
+// that cuts the stream at those positions would.
+type c30FragReader struct{ pieces [][]byte }
+
+func (r *c30FragReader) Read(p []byte) (int, error) {
+	for len(r.pieces) > 0 && len(r.pieces[0]) == 0 {
+		r.pieces = r.pieces[1:]
+	}
+	if len(r.pieces) == 0 {
+		return 0, io.EOF
+	}
+	n := copy(p, r.pieces[0])
+	r.pieces[0] = r.pieces[0][n:]
+	return n, nil
+}
+
+// c30Pieces cuts line according to frags; before is delivered first in one piece, after last.
+func c30Pieces(before, line []byte, frags []int, after []byte) [][]byte {
+	var ps [][]byte
+	if len(before) > 0 {
+		ps = append(ps, append([]byte(nil), before...))
+	}
+	off := 0
+	for _, f := range frags {
+		ps = append(ps, append([]byte(nil), line[off:off+f]...))
+		off += f
+	}
+	if len(after) > 0 {
+		ps = append(ps, append([]byte(nil), after...))
+	}
+	return ps
+}
+
+var c30HexFViol int
+
+// c30Guard runs f; a panic of the library is returned as an error (a crash of the code under
+// test is a verdict with the offending vector, never a dead harness).
+func c30Guard(f func() error) (err error, crashed bool) {
+	defer func() {
+		if p := recover(); p != nil {
+			err, crashed = fmt.Errorf("PANIC: %v", p), true
+		}
+	}()
+	return f(), false
+}
+
+func c30HexFrag(v c30Vec) {
+	line := c30Bytes(v.S)
+	want := c30Digits(v.Val)
+	viol := func(what, detail string, extra vfRec) {
+		if c30HexFViol++; c30HexFViol > 40 {
+			return
+		}
+		extra["line"] = string(line)
+		extra["fragments"] = v.Frags
+		vfViol(fmt.Sprintf("hexf:%s:%q:frags=%v", what, line, v.Frags), detail, extra)
+	}
+	judge := func(what string, got int, err error) {
+		switch {
+		case v.OK && err != nil:
+			viol(what, fmt.Sprintf("%s on %q delivered in reads of %v bytes failed (%v); reference value 0x%s", what, line, v.Frags, err, want), vfRec{})
+		case v.OK && strconv.FormatInt(int64(got), 16) != want:
+			viol(what, fmt.Sprintf("%s on %q delivered in reads of %v bytes = 0x%x; reference 0x%s", what, line, v.Frags, got, want), vfRec{"got": got})
+		case !v.OK && err == nil:
+			viol(what, fmt.Sprintf("%s on %q delivered in reads of %v bytes = 0x%x without error; the size has more than %d hex digits and must be rejected", what, line, v.Frags, got, maxHexIntChars), vfRec{"got": got})
+		}
+	}
+	// (1) readHexInt and parseChunkSize on the bare line
+	crash := func(what string, err error) {
+		viol("crash:"+what, fmt.Sprintf("%s panicked on %q delivered in reads of %v bytes: %v", what, line, v.Frags, err), vfRec{})
+	}
+	var got int
+	err, crashed := c30Guard(func() (e error) {
+		got, e = readHexInt(bufio.NewReader(&c30FragReader{pieces: c30Pieces(nil, line, v.Frags, nil)}))
+		return e
+	})
+	if crashed {
+		crash("readHexInt", err)
+	} else {
+		judge("readHexInt", got, err)
+	}
+	err, crashed = c30Guard(func() (e error) {
+		got, e = parseChunkSize(bufio.NewReader(&c30FragReader{pieces: c30Pieces(nil, line, v.Frags, nil)}))
+		return e
+	})
+	if crashed {
+		crash("parseChunkSize", err)
+	} else {
+		judge("parseChunkSize", got, err)
+	}
+
+	// (2) whole chunked messages: accepted small sizes must deliver exactly that many body
+	// bytes; everything else (over-long size, size beyond the body limit) must be an error -
+	// never a successfully read message
+	const limit = 1 << 16
+	n64, perr := strconv.ParseInt(want, 16, 64)
+	small := v.OK && perr == nil && n64 <= limit
+	var data []byte
+	if small {
+		data = bytes.Repeat([]byte("z"), int(n64))
+	} else {
+		data = []byte("zzzz")
+	}
+	after := append(append([]byte(nil), data...), "\r\n0\r\n\r\n"...)
+	if small && n64 == 0 {
+		after = []byte("\r\n") // the size line itself is the last chunk
+	}
+	msg := func(kind string, body []byte, err error) {
+		switch {
+		case small && (err != nil || !bytes.Equal(body, data[:n64])):
+			viol(kind, fmt.Sprintf("%s of a chunked message whose size line %q is delivered in reads of %v bytes: %d body bytes, err %v; expected the %d-byte chunk", kind, line, v.Frags, len(body), err, n64), vfRec{"err": fmt.Sprint(err)})
+		case !small && err == nil:
+			viol(kind, fmt.Sprintf("%s of a chunked message whose size line %q (reference: %s) is delivered in reads of %v bytes succeeded with a %d-byte body", kind, line,
+				map[bool]string{true: "0x" + want + ", beyond the body limit", false: "over-long, must be rejected"}[v.OK], v.Frags, len(body)), vfRec{"body_len": len(body)})
+		}
+	}
+	var resp Response
+	err, crashed = c30Guard(func() error {
+		return resp.ReadLimitBody(bufio.NewReader(&c30FragReader{pieces: c30Pieces([]byte("HTTP/1.1 200 OK\r\nTransfer-Encoding: chunked\r\n\r\n"), line, v.Frags, after)}), limit)
+	})
+	if crashed {
+		crash("Response.Read", err)
+	} else {
+		msg("Response.Read", resp.Body(), err)
+	}
+	var req Request
+	err, crashed = c30Guard(func() error {
+		return req.ReadLimitBody(bufio.NewReader(&c30FragReader{pieces: c30Pieces([]byte("POST /x HTTP/1.1\r\nHost: h\r\nTransfer-Encoding: chunked\r\n\r\n"), line, v.Frags, after)}), limit)
+	})
+	if crashed {
+		crash("Request.Read", err)
+	} else {
+		msg("Request.Read", req.Body(), err)
+	}
 }
